@@ -117,8 +117,9 @@ def discharge(ob, use_cvc5=True, recheck_cvc5=False):
         for mbqi, tmo in ((False, EMATCH_TIMEOUT_MS), (True, Z3_TIMEOUT_MS)):
             s = z3.Solver()
             s.set("timeout", tmo)
-            s.set("auto_config", False)
-            s.set("mbqi", mbqi)
+            if not mbqi:
+                s.set("auto_config", False)
+                s.set("mbqi", False)
             for p in ob.pc:
                 s.add(p)
             for h in hyps:
